@@ -205,6 +205,12 @@ var rawProbes = []string{
 
 // probe exercises a parsed function on the fixed probe documents with recording callbacks.
 func probe(fn fnType, rec *Recorder, path string) []string {
+	return probeWith(func(d interface{}) ([]interface{}, string) { return safeCall(fn, d) }, fn, rec, path)
+}
+
+// probeWith: call evaluates the path on one document (the parsed function, or Retrieve);
+// self, if not nil, is what re-entering user functions call besides the nested Retrieve.
+func probeWith(call func(interface{}) ([]interface{}, string), self fnType, rec *Recorder, path string) []string {
 	var out []string
 	s := recSlot()
 	old := curRec[s]
@@ -224,8 +230,9 @@ func probe(fn fnType, rec *Recorder, path string) []string {
 			}
 		}
 		rec.reset([nFuncs]uint64{})
+		rec.Self = self
 		simrt.OpStart()
-		_, o := safeCall(fn, d)
+		_, o := call(d)
 		out = append(out, o+" log="+rec.log())
 		if simrt.Aborted() != 0 {
 			break
@@ -244,6 +251,23 @@ func execItem(it CorpusItem, cfgs []jsonpath.Config, inject int, rec *Recorder) 
 		o.Probes = probe(fn, rec, it.Path)
 	}
 	return fn, o, fired
+}
+
+// retrieveItem is execItem through Retrieve: every probe document is evaluated by its own
+// Retrieve call (which parses each time).  For an item that parses, the outcome must read
+// exactly like Parse + calls; the user functions cannot re-enter "the calling function"
+// here, so this form is used only for items whose functions do not do that.
+func retrieveItem(it CorpusItem, cfgs []jsonpath.Config, rec *Recorder) itemOutcome {
+	pr := probeWith(func(d interface{}) ([]interface{}, string) { return safeRetrieve(it.Path, d, cfgs) }, nil, rec, it.Path)
+	return itemOutcome{Parse: "FN", Probes: pr}
+}
+
+// retrievable: the item parses (fresh-process outcome) and none of its functions re-enters.
+func retrievable(i int) bool {
+	if c19Expect == nil || !strings.HasPrefix(c19Expect[i], "FN || ") {
+		return false
+	}
+	return !strings.Contains(c19Corpus[i].Path, ".yf()") && !strings.Contains(c19Corpus[i].Path, ".ya()")
 }
 
 // oneshot executes corpus item i as the first library call of this process.
@@ -338,7 +362,16 @@ func runC19() *RunResult {
 					cfgs = kept.slice
 					t.probe("config-value-reused")
 				}
-				fn, got, fired := execItem(it, cfgs, inject, &t.rec)
+				var fn fnType
+				var got itemOutcome
+				fired := false
+				viaRetrieve := (kind == 3 || kind == 2) && retrievable(item)
+				if viaRetrieve {
+					got = retrieveItem(it, cfgs, &t.rec)
+					t.probe("item-evaluated-through-Retrieve")
+				} else {
+					fn, got, fired = execItem(it, cfgs, inject, &t.rec)
+				}
 				o.Got = got.String()
 				if simrt.Aborted() != 0 {
 					return
@@ -353,7 +386,7 @@ func runC19() *RunResult {
 				if inject > 0 {
 					t.probe("injection-point-beyond-parse(call-judged)")
 				}
-				if useKept && fn != nil && kept != nil && it.Cfg.Present {
+				if useKept && (fn != nil || viaRetrieve) && kept != nil && it.Cfg.Present {
 					keptFns = append(keptFns, struct {
 						fn   fnType
 						item int
@@ -515,6 +548,9 @@ func runC19() *RunResult {
 					t.probe("config-modified-after-parse")
 					o.Got = fmt.Sprintf("re-probed %d", len(keptFns))
 					for _, kf := range keptFns {
+						if kf.fn == nil {
+							continue // that call went through Retrieve: no function was kept
+						}
 						pr := probe(kf.fn, &t.rec, c19Corpus[kf.item].Path)
 						if simrt.Aborted() != 0 {
 							return
@@ -536,7 +572,12 @@ func runC19() *RunResult {
 						if tw <= 0 || c19Expect == nil {
 							continue
 						}
-						_, got, _ := execItem(c19Corpus[tw], kept.slice, 0, &t.rec)
+						var got itemOutcome
+						if retrievable(tw) && (kf.fn == nil || kf.item%2 == 0) {
+							got = retrieveItem(c19Corpus[tw], kept.slice, &t.rec)
+						} else {
+							_, got, _ = execItem(c19Corpus[tw], kept.slice, 0, &t.rec)
+						}
 						if simrt.Aborted() != 0 {
 							return
 						}
